@@ -192,6 +192,12 @@ func genC15(r *rand.Rand, run int, _ string) *Scenario {
 		}
 
 		sc.Sched = genSched(r, 40+nc*30)
+
+		if chance(r, 0.6) {
+			// end with a fault-free sweep over all labels: nothing that was ever labelled may be left
+			// (keys rewritten by a write operation are exempt)
+			ix.Sweep = labels
+		}
 	}
 
 	return sc
@@ -344,13 +350,25 @@ func runIndex(e *env) {
 				out.violate("C15.R5", "sweep-failed", "fault-free InvalidateByLabels(%v) after the clients finished returned %v", sc.Sweep, rec.err)
 			}
 
+			rewritten := map[string]bool{}
+
+			for _, w := range r.recs {
+				if w.op.Kind == "write" {
+					rewritten[fmt.Sprintf("%d/%s", w.op.Cache, sc.Keys[w.op.Key])] = true
+				}
+			}
+
 			for name, keys := range r.labelled(sc.Sweep) {
 				for i, c := range sc.Caches {
-					if c.Name != name || !r.added[i] {
+					if c.Name != name || !r.added[i] || c.Late {
 						continue
 					}
 
 					for k := range keys {
+						if rewritten[fmt.Sprintf("%d/%s", i, k)] {
+							continue
+						}
+
 						if r.present(i, k) {
 							out.violate("C15.R5", "key-fell-out-of-index-concurrent", "key %q was labelled under %q (AddLabels concurrent with a failing InvalidateByLabels); a later fault-free InvalidateByLabels(%v) returned nil but the key is still in cache #%d: the association was lost", k, name, sc.Sweep, i)
 						}
